@@ -14,7 +14,7 @@ func run(c *core.Ctx) {
 	c.Assume("nil and empty collections are equal; an unset attribute with a design default arrives as the default; zero of a defaulted primitive (non-pointer field) may arrive as zero or default")
 	c.Assume("values the transport cannot carry are outside the alphabet: empty path segment, control characters outside bodies, RFC 6265-forbidden cookie characters")
 	c.Assume("the wire is in-memory: http.Request.Write -> http.ReadRequest -> goa muxer on an httptest recorder (exact net/http serialisation and parsing, no sockets)")
-	fams := []check.Family{families.PayloadSingle(), families.PayloadPair(c.Thorough()), families.Features()}
+	fams := []check.Family{families.PayloadSingle(), families.PayloadPair(c.Thorough()), families.Features(), families.CrossService()}
 	if families.OnlyStreams(c) {
 		fams = nil
 	}
